@@ -736,25 +736,27 @@ impl<H: Helper, I: History> Editor<H, I> {
             }
 
             // First trigger commands that need extra input
-
-            if cmd == Cmd::Complete && s.helper.is_some() {
-                let next = complete_line(&mut rdr, &mut s, &mut input_state, &self.config)?;
+            // (each of them may hand back the command that ended it, which may in turn be one
+            // of them: e.g. Tab typed to leave an incremental search starts a completion)
+            let mut done = false;
+            loop {
+                let next = if cmd == Cmd::Complete && s.helper.is_some() {
+                    complete_line(&mut rdr, &mut s, &mut input_state, &self.config)?
+                } else if cmd == Cmd::ReverseSearchHistory {
+                    // Search history backward
+                    reverse_incremental_search(&mut rdr, &mut s, &mut input_state, &self.history)?
+                } else {
+                    break;
+                };
                 if let Some(next) = next {
                     cmd = next;
                 } else {
-                    continue;
+                    done = true;
+                    break;
                 }
             }
-
-            if cmd == Cmd::ReverseSearchHistory {
-                // Search history backward
-                let next =
-                    reverse_incremental_search(&mut rdr, &mut s, &mut input_state, &self.history)?;
-                if let Some(next) = next {
-                    cmd = next;
-                } else {
-                    continue;
-                }
+            if done {
+                continue;
             }
 
             #[cfg(unix)]
